@@ -58,3 +58,43 @@ Definition covers (tbl : list io_site) : bool :=
   forallb (fun f => has_site tbl (in_func "utils.py" f)) expected_funcs
   && forallb (fun f => has_site tbl (fun s => in_func "utils.py" f s && s_continues s))
              expected_exchanges.
+
+(** ** The urwid screen ([widget/_urwid.py], class [UrwidImageScreen])
+
+    urwid's event loop reads the terminal ([get_available_raw_input]) and its screen writes
+    to it ([write] / [flush], [draw_screen] through them) from whatever thread runs the
+    loop.  The library synchronizes them by OVERRIDING those methods of
+    [urwid.raw_display.Screen] with [@lock_tty] delegates.  One [screen_method] per method
+    of the base classes that reaches the terminal's files (by [self.<method>()] calls inside
+    urwid's screen classes), read from the INSTALLED urwid by the translator:
+
+    - [m_direct]: a public method whose own body writes / flushes the output file;
+    - [m_overridden] / [m_locked]: the library's class defines it / with [@lock_tty] (or its
+      whole body inside [with _tty_lock, _tty_lock:]).
+
+    REQUIRED to be overridden and locked: every direct public writer of the installed urwid
+    (so that a new one cannot go unnoticed), and the methods the library itself wraps and
+    documents ("[@lock_tty] prevents queries during a synced update"; the input reader of the
+    event loop).  Not demanded (the unchanged code does not provide it, and they run in the
+    thread that starts / stops the screen): [_start], [_stop], [get_input]. *)
+Record screen_method := {
+  m_name : string;
+  m_in_base : bool;
+  m_touches_tty : bool;
+  m_direct : bool;
+  m_overridden : bool;
+  m_locked : bool
+}.
+
+Definition expected_screen_methods : list string :=
+  ["draw_screen"; "flush"; "get_available_raw_input"; "write"]%string.
+
+Definition screen_required (m : screen_method) : bool :=
+  m_direct m || existsb (String.eqb (m_name m)) expected_screen_methods.
+
+Definition screen_locked (m : screen_method) : bool :=
+  if screen_required m then m_overridden m && m_locked m else true.
+
+Definition screen_covers (tbl : list screen_method) : bool :=
+  forallb (fun n => existsb (fun m => String.eqb (m_name m) n && m_in_base m && m_touches_tty m) tbl)
+          expected_screen_methods.
